@@ -171,6 +171,12 @@ func numericSpecs() map[string]*specs.Spec {
 		}
 		out["large-many-devices"] = sp
 	}
+	// spellings of the version the library accepts besides the plain one
+	for _, v := range []string{"v0.6.0", "v1.0.0"} {
+		sp := baseSpec()
+		sp.Version = v
+		out["version-spelled-"+v] = sp
+	}
 	// kinds / names
 	sp := baseSpec()
 	sp.Kind = "v/c"
